@@ -194,6 +194,7 @@ for shape, text in [("leaf", "a single-valued leaf (value nil/false/true/any f64
     H("c06_if_branch_" + ("" if shape.startswith("same") else "result_") + shape, "c06_ifexpr::c06_if_branch_" + ("" if shape.startswith("same") else "result_") + shape, ["C06"],
       ["remove_if_expression::Processor::convert_if_branch", "remove_if_expression::Processor::wrap_in_table", "Evaluator::can_return_multiple_values", "LuaValue::is_truthy"],
       "one if/else branch whose result operand is " + text + "; condition and else operands are leaves with symbolic values",
+      tier="quick" if shape in ("leaf", "call", "not", "same_leaf") else "thorough",
       mode="lean", timeout_s=900, mem_gb=16, replay="if_branch_" + ("" if shape.startswith("same") else "result_") + shape, stubs=[EVAL_STUB],
       assumptions=["native replay runs the real convert_if_branch with the real evaluator on realised operands"])
 # c06_if_chain_* (the whole process_expression fold over two elseif branches, interpreted) are written
@@ -269,3 +270,6 @@ for kind, text in [("unary", "`not a`"), ("if", "`if a then b else c`")]:
       mode="lean", timeout_s=1200, mem_gb=16, replay=None,
       stubs=[EVAL_STUB, SE_STUB, "LuaValue::to_expression -> records the folded value and returns a marker", "<Expression as Clone>::clone -> copy of identifier leaves", "Computer::process_expression -> no-op"],
       assumptions=["no native replay: the node's analyses' answers are the solver's; a counterexample is reported as inconclusive unless reproduced by the and/or harnesses"])
+
+# c17_preserved_arguments_* (utils::expressions_as_expression on 0..3 argument leaves, result interpreted; harness/src/c17_args.rs) are
+# written but not registered: consuming the Vec<Expression> (into_iter / rfold) drags in the drop glue of the AST, out of memory at 16 GB.
